@@ -475,7 +475,16 @@ class Locale:
         return simplifications
 
     def _clear_future_words(self, words):
-        freshness_words = {"day", "week", "month", "year", "hour", "minute", "second"}
+        freshness_words = {
+            "decade",
+            "year",
+            "month",
+            "week",
+            "day",
+            "hour",
+            "minute",
+            "second",
+        }
         if set(words).isdisjoint(freshness_words):
             words.remove("in")
         return words
